@@ -1232,7 +1232,7 @@ _router_entry("C10",
 PROPS["C09"]["props_modules"] = ["Flamego.Props.C09", "Flamego.Props.C09Values"]
 PROPS["C09"]["code_modules"] = ["Flamego.Props.C09Code"]
 for _pid in ("C07", "C10"):
-    PROPS[_pid]["code_modules"] = ["Flamego.Props.C10Code"]
+    PROPS[_pid]["code_modules"] = ["Flamego.Props.C10Code"] + (["Flamego.Props.C07Code"] if _pid == "C07" else [])
     PROPS[_pid]["technique"] = PROPS[_pid]["technique"] + "; code-level tie for the dispatcher router.ServeHTTP: its body is translated to Lean on every run and proved to make exactly the one call the model's Router.serve decides"
     PROPS[_pid]["level_text"] = PROPS[_pid]["level_text"] + (
         " CODE-LEVEL TIE: /verif/translator regenerates Gen/RouterCode.lean from router.go on every run (the router struct and the body of "
@@ -1247,6 +1247,11 @@ for _pid in ("C07", "C10"):
         "code-level tie: the Go→Lean translator of method bodies (translator/gocode.go, routercode.go), Code/GoSem.lean, "
         "Code/LibRoute.lean (a route.Leaf / route.Tree stands for the model's leaf / tree; `world` is a field added to record which "
         "function value the dispatcher called)"]
+PROPS["C07"]["level_text"] = PROPS["C07"]["level_text"] + (
+    " The outermost step as well: Gen/FlameCode.lean (Flame.ServeHTTP, Flame.Before, regenerated from flame.go on every run; the "
+    "loop over the Before handlers is a translated range loop with early return) and Props/C07Code: serve_closed (trim the URL "
+    "prefix, run the Before handlers in registration order on the trimmed request until one answers true, ask the router exactly "
+    "when none did), before_stops, all_false_serves, before_registers_last.")
 
 PROPS["C04"]["code_modules"] = ["Flamego.Props.C04Code"]
 PROPS["C04"]["technique"] = PROPS["C04"]["technique"] + "; code-level tie for injector.Value / Set / SetParent: the bodies are translated to Lean on every run and proved to return an element of the model's set of admissible answers along every chain of scopes"
